@@ -48,7 +48,14 @@ def _required():
            "sched_rps_composite_4_sections", "sched_rps_composite_as_list", "sched_rps_composite_as_plugin",
            "sched_rps_section_once", "sched_rps_section_const", "sched_rps_section_pause", "sched_rps_section_unlimited",
            "sched_startup_once", "sched_startup_gradual", "sched_startup_composite", "sched_startup_instance_step",
-           "sched_rps_composite_with_gradual_startup"]
+           "sched_rps_composite_with_gradual_startup",
+           # discard_overflow and a schedule the instances are behind of (after seeded defect C11/m7)
+           "sched_discard_overflow_on", "sched_discard_overflow_off", "sched_rps_started_in_the_past",
+           "sched_overdue_tokens_to_discard", "sched_overdue_tokens_to_shoot_late", "sched_overdue_section_once",
+           "sched_overdue_section_const", "sched_overdue_tokens_before_composite_rps", "sched_rps_overdue_sections_then_once",
+           "sched_overdue_tokens_with_gradual_startup", "sched_overdue_tokens_to_discard_and_late_tokens_to_shoot",
+           "sched_overdue_tokens_to_discard_with_pooled_ammo", "shots_discarded_as_overflow",
+           "shots_discarded_and_shots_overlap", "shots_discarded_with_pooled_ammo"]
     cls += ["obj_http_" + c for c in per_scen] + ["obj_grpc_" + c for c in per_scen]
     dropped = set()
     for fid in _known_ids():
@@ -76,7 +83,16 @@ SPEC = {
              "hold fewer tokens than there are ammo, so every instance asks the one schedule object for Left and Next while other "
              "instances move it on to its next section, and the last section outlasts the ammo limit; otherwise one `once` section. "
              "Instances start all at once or (4 cases of 10) gradually over a few ms: a composite of once / const / pause sections or "
-             "instance_step (from 0 included). Scenarios are built from switches, one per shared "
+             "instance_step (from 0 included). The pool option `discard_overflow` is always named, true in 6 cases of 10. In 4 cases of "
+             "10 (7 of 10 for grpc/json, the provider that recycles its ammo objects through a pool) the shared rps schedule is started "
+             "2.2-4 s in the past (core.Schedule.Start with an earlier time, which the interface allows once before the first Next): "
+             "1-2 bursts of tokens (`once`, or `const` over 1-50 ms, pauses between them) holding up to half of the ammo are due 2 s or "
+             "more before the run begins, in 1 of 4 such cases a further burst is due 0.2-1.2 s before it, then a pause up to the "
+             "beginning of the run and the sections described above; so the instances meet overdue tokens exactly as instances that are "
+             "slower than the schedule do, without any real waiting: with discard_overflow (4 of 5 such cases) the tokens that are 2 s "
+             "overdue are discarded - the acquired ammo goes back to the provider unused while other instances shoot - otherwise they "
+             "are shot at once. The number of discarded shots is measured (ammo acquired minus shots the gun probes counted; on a "
+             "stalled machine instances fall 2 s behind any schedule) and all counts are judged against it. Scenarios are built from switches, one per shared "
              "object: preprocessor row mapping source.users[next|rand|last] on a file/csv or file/json source, [next|rand|last] indexing "
              "of an array taken from an earlier response, randInt / randString / uuid as template functions and as preprocessor "
              "functions, a `variables` source with randomised values, header / metadata maps (none, constants, templates), var/jsonpath, "
@@ -96,7 +112,11 @@ SPEC = {
                _T + "/obj_http_date_middleware_redelivered_no_host_header": 0.01,
                # classes added after seeded defect C11/m6 (shared composite rps schedule switching sections under concurrent Left/Next)
                _T + "/sched_rps_composite": 0.3, _T + "/sched_rps_section_const": 0.2, _T + "/sched_rps_section_once": 0.3,
-               _T + "/sched_startup_gradual": 0.2, _T + "/sched_rps_composite_with_gradual_startup": 0.1},
+               _T + "/sched_startup_gradual": 0.2, _T + "/sched_rps_composite_with_gradual_startup": 0.1,
+               # classes added after seeded defect C11/m7 (discard_overflow drops shots of instances that are behind the schedule)
+               _T + "/sched_rps_started_in_the_past": 0.25, _T + "/sched_overdue_tokens_to_discard": 0.15,
+               _T + "/sched_overdue_tokens_to_shoot_late": 0.03, _T + "/shots_discarded_as_overflow": 0.15,
+               _T + "/shots_discarded_and_shots_overlap": 0.12, _T + "/shots_discarded_with_pooled_ammo": 0.012},
     "required_classes": _required(),
     "manifest": {
         "technique": ("property testing (rapid) under the Go race detector: generated pool configurations run by the real engine in a child "
@@ -105,7 +125,10 @@ SPEC = {
         "text": ("For every generated pool: the child process must end without a race report (exit code 66 / WARNING: DATA RACE on stderr), runtime fatal error "
                  "or panic; the gun factory is called once per started instance (plus one warm-up gun), every gun object is distinct, "
                  "bound exactly once to a distinct instance id and never receives a Shoot while another Shoot on it is in progress; no "
-                 "ammo object is held by two instances at once; the canonical deep dump (reflection, unexported fields included) of the "
+                 "ammo object is held by two instances at once, and an instance gives back (Release) only an ammo object it holds - never "
+                 "one that went back to the provider already, shot or discarded as overflow; exactly the limited number of ammo is "
+                 "acquired, every one of them is either shot or (discard_overflow) dropped, the target sees exactly the shot ones and "
+                 "the aggregator holds one sample per request served plus one (phout: tagged `discarded`) per dropped shot; the canonical deep dump (reflection, unexported fields included) of the "
                  "provider's scenario steps, header / metadata maps, payloads, variable storage and preloaded ammo is identical before "
                  "and after the run; at the target every follow-up step presents exactly the token, user id, items, header- and "
                  "xpath-derived values and preprocessor uuid / row of the invocation they were issued to, a token is never presented by "
